@@ -266,7 +266,7 @@ class MutationAnalysis:
             if isinstance(s_, ast.AugAssign):
                 check_expr(s_.value, st)
                 if isinstance(s_.target, ast.Name):
-                    if st.get(s_.target.id, INF) == 0 and isinstance(s_.op, (ast.Add, ast.BitOr, ast.BitAnd, ast.Sub)):
+                    if st.get(s_.target.id, INF) == 0 and isinstance(s_.op, (ast.Add, ast.BitOr, ast.BitAnd, ast.Sub)) and not self._immutable(fn, s_.target, s_.value):
                         report(s_, "augmented assignment (in place for containers)", s_.target.id)
                 elif isinstance(s_.target, (ast.Subscript, ast.Attribute)):
                     if val(s_.target.value, st) == 0:
@@ -344,6 +344,20 @@ class MutationAnalysis:
         return found
 
     # ----------------------------------------------------------------------------------------------
+    def _immutable(self, fn: FunctionInfo, target: ast.AST, value: ast.AST) -> bool:
+        """x += v on a number / string / tuple re-binds the name: nothing the caller holds is modified (types from mypy, or a numeric literal operand)"""
+        if isinstance(value, ast.Constant) and isinstance(value.value, (int, float, str, bool)):
+            return True
+        try:
+            for e in (target, value):
+                t = self.res.types.of(fn.module, e)
+                insts = t.instances() if t is not None else []
+                if insts and all(i.fn in ("builtins.int", "builtins.float", "builtins.bool", "builtins.str", "builtins.tuple", "builtins.complex") for i in insts):
+                    return True
+        except Exception:
+            pass
+        return False
+
     def param_mutations(self, fn: FunctionInfo, idx: int, depth: int, argdepth: int = 0) -> list[Mutation]:
         key = (fn.fullname, idx, argdepth)
         if key in self._param_summary:
